@@ -362,6 +362,30 @@ VCLAUSE(metropolis_counts, 12, 1200, 20000, "thinning > 1 and burn_in is not a m
 	auto pdf  = [](double x) { return std::exp(-0.5 * x * x); };
 	auto pdf2 = [](double x, double y) { return std::exp(-0.5 * (x * x + y * y)); };
 	bool two = s.coin(), bounded = s.coin();
+	if(s.chance(0.04))
+	{
+		// "exhaustive on a grid": every triple of the fine grid 0..6 x 1..6 x 0..6, or of the coarse grid {0,1,2,3,7,20,64,200}^3 (thinning >= 1)
+		bool fine = s.coin();
+		static const unsigned coarse[] = {0, 1, 2, 3, 7, 20, 64, 200};
+		c.nt();
+		c.cls(fine ? "grid_sweep_fine" : "grid_sweep_coarse");
+		long triples = 0;
+		for(unsigned a = 0; a < (fine ? 7u : 8u); a++)
+			for(unsigned b = 0; b < (fine ? 6u : 7u); b++)
+				for(unsigned d = 0; d < (fine ? 7u : 8u); d++)
+				{
+					unsigned sm = fine ? a : coarse[a], th = fine ? b + 1 : coarse[b + 1], bu = fine ? d : coarse[d];
+					size_t got = 0;
+					if(two)
+						VMUST_RETURN("Sample_Metropolis_2D", got = Sample_Metropolis_2D(g, pdf2, {1.0, 1.5}, sm, th, bu, bounded ? std::vector<double> {-3, 3, -2, 4} : std::vector<double> {}).size());
+					else
+						VMUST_RETURN("Sample_Metropolis", got = Sample_Metropolis(g, pdf, 1.0, sm, th, bu, bounded ? std::vector<double> {-3, 3} : std::vector<double> {}).size());
+					VCHECK(got == sm, "requested " << sm << " samples with thinning " << th << " and burn-in " << bu << ", received " << got);
+					triples++;
+				}
+		VLOG(c, "grid sweep over " << triples << " (sample, thinning, burn_in) triples, " << (two ? "2D" : "1D") << (bounded ? " bounded" : " unbounded"));
+		return;
+	}
 	VLOG(c, "Sample_Metropolis" << (two ? "_2D" : "") << " sample=" << sample << " thinning=" << thin << " burn_in=" << burn << " bounded=" << bounded);
 	size_t got = 0;
 	if(two)
@@ -592,7 +616,12 @@ VCLAUSE(law_general, 60, 600, 6000, "a loose rejection envelope (yMax >= 10 max 
 		std::vector<std::pair<double, double>> v;
 		double fx = bounded ? 0.5 : 2.0;
 		// an unbounded chain starts at a Gaussian around the origin: give it a burn-in that reaches the target
-		VMUST_RETURN("Sample_Metropolis_2D", v = Sample_Metropolis_2D(g, pdf2, {fx * wx, fx * wy}, (unsigned) n, 40, 1000, bounded ? std::vector<double> {x0, x0 + wx, y0, y0 + wy} : std::vector<double> {}));
+		// (bounded: the requested rectangle may be wider than the support, the chain then starts where the density vanishes)
+		double mx = (bounded && s.coin()) ? wx * s.uniform(0.3, 2.0) : 0.0, my = mx > 0 ? wy * s.uniform(0.3, 2.0) : 0.0;
+		unsigned burn2 = mx > 0 ? 20000u : 1000u;
+		if(mx > 0)
+			c.cls("metropolis_2d_domain_wider_than_support");
+		VMUST_RETURN("Sample_Metropolis_2D", v = Sample_Metropolis_2D(g, pdf2, {fx * wx, fx * wy}, (unsigned) n, 40, burn2, bounded ? std::vector<double> {x0 - mx, x0 + wx + mx, y0 - my, y0 + wy + my} : std::vector<double> {}));
 		VCHECK((int) v.size() == n, "Sample_Metropolis_2D returned " << v.size() << " of " << n);
 		std::vector<double> vx, vy;
 		for(auto& p : v)
@@ -602,6 +631,16 @@ VCLAUSE(law_general, 60, 600, 6000, "a loose rejection envelope (yMax >= 10 max 
 		}
 		if(!bounded && (std::fabs(x0) > 30 * wx || std::fabs(y0) > 30 * wy))
 			return;	  // the start (Gaussian around the origin) may be farther from the target than the burn-in can bridge: outside the tested domain
+		if(bounded)
+		{
+			inside_test(c, "Sample_Metropolis_2D (x)", vx, x0 - mx, x0 + wx + mx);
+			inside_test(c, "Sample_Metropolis_2D (y)", vy, y0 - my, y0 + wy + my);
+			long zero = 0;
+			for(auto& q : v)
+				if(!(pdf2(q.first, q.second) > 0))
+					zero++;
+			VCHECK(zero <= n / 100, zero << " of " << n << " two-dimensional Metropolis samples lie where the target density is zero");
+		}
 		ks_test(c, "Sample_Metropolis_2D (x marginal)", vx, cx);
 		ks_test(c, "Sample_Metropolis_2D (y marginal)", vy, cy);
 	}
